@@ -18,11 +18,11 @@ CLAIMED = {
  "C13": dict(engine="interval", category="model_checking", design_ref="5/C13",
    technique="TLC invariants on the modelled __eq__/__hash__ (EqSymmetric, EqImpliesHash, EqExact over all pairs; laws) + B1/B3 observation of ==, hash on real objects",
    text=IA + "the hand-written __eq__/__hash__ of the four specifier classes are modelled as written and checked to be an equivalence compatible with hashing over all pairs; on the real objects every replayed vector and every session register logs == in both directions, reflexivity and hash equality against all earlier registers (clauses eq_symmetric, eq_reflexive, eq_transitive, eq_implies_hash).",
-   note="Marker objects are covered by the marker session engine once registered (see DESIGN); hash collisions are ignored (HashEq is modelled as key equality)."),
+   note="Marker objects: recorded marker sessions log ==, hash against all earlier registers (clauses eq_symmetric/transitive/eq_implies_hash/eq_but_different_meaning) and interchange scripts combine two equal spellings of an atom with the same partner with the memo caches emptied in between. Hash collisions are ignored (HashEq is modelled as key equality)."),
  "C14": dict(engine="interval", category="model_checking", design_ref="5/C14",
    technique="TLC model checking of the Laws configuration (all triples, 15 laws as equality of returned values) + law scripts replayed on real objects (B1) and recorded law sessions validated by TLC (B3)",
    text=IA + "Laws configuration: every triple of values over N=2 bounds, 15 laws, both sides equal under the modelled __eq__ and hash; on the real library the same laws are evaluated on sampled triples of the TLC-enumerated N=3 values under two embeddings, and law sessions over arbitrary version shapes are validated by TLC (clause law sides == in both directions).",
-   note="Oracle-free: the law itself decides. Marker half is served by the marker engine once registered."),
+   note="Oracle-free: the law itself decides. Markers: law scripts in recorded sessions, both sides must have equal truth tables (TLC clause per law)."),
  "C19": dict(engine="generic", category="model_checking", design_ref="5/C19",
    technique="TLC model checking of GenericSpec (complete literal pool) + exhaustive transition replay into GenericSpecifier with membership of every candidate through `in`",
    text="TLA+ spec GenericSpec transcribes the sorted-operator case table of GenericSpecifier.__and__/__or__/__invert__ over literals that are letter sequences (so equal/substring/superstring/disjoint/empty relations are computed); TLC checks Exact (answer denotes the intersection/union/complement wherever the table answers) over all 3600 ordered pairs; every dumped transition is executed on the real class under three fragment renderings and the membership of all 31 candidates through `in` (also on returned Empty/Any specifiers) is compared with the specification's exact set.",
@@ -55,6 +55,30 @@ CLAIMED = {
    technique="Pep440.tla as structural generator (TLC-enumerated clauses) rendered in 13 spellings, random comma/||-joined sets and 14 named near-miss mutations; reference verdict = packaging.SpecifierSet",
    text="Every clause of the TLC-enumerated Pep440 universe in every applicable spelling, thousands of random sets joined by ',' and '||', `<empty>`, and mutated near-miss strings are given to parse_version_specifier / from_specifierset: accepted by packaging => a specifier must be returned; rejected by packaging => InvalidSpecifier and nothing else.",
    note="Character-level grammar is exercised, not modelled (level exploration). `+local` and `===` strings are skipped as the statement says."),
+ "C02": dict(engine="marker", category="model_checking", design_ref="5/C02",
+   technique="TLC trace validation of recorded marker sessions against MarkerSessionTrace (clauses and_table / or_table / is_empty / is_any on truth tables)",
+   text="recorded marker sessions (parse / & / | / reparse / only / exclude / without_extras / law scripts on earlier results) with truth tables from the real evaluate() over the session's region grid, validated event by event by TLC against MarkerSessionTrace (total trace specification, clause-level attribution).  For C02 every & and | event must have exactly the pointwise conjunction / disjunction of its operands' tables, an is_empty() result an all-false table and an is_any() result an all-true one; operands are earlier results, so merged atoms, ==/!= groups, cnf/dnf candidates and multi-valued extras are exercised as they arise.",
+   note="The oracle is the property itself (results against operands, both through evaluate(), which C03 binds to packaging).  Grids above 96 environments are sampled; a mismatch on a grid environment is always a genuine counterexample.  Known finding: in-list substring semantics."),
+ "C03": dict(engine="markersem", category="model_checking", design_ref="5/C03",
+   technique="TLC model checking of MarkerSemantics (PEP 508 Eval over a finite environment grid) + three-way replay (specification table, packaging.markers.Marker, dep_logic) of every atom and of depth-2 and/or trees + TLC trace validation of parse events against packaging tables",
+   text="MarkerSemantics.tla defines Eval: version-valued variables through the PEP 440 clause semantics of Pep440Ops in BOTH operand orders, in/not in as substring containment on character sequences, string atoms on letter sequences, extra by PEP 685 classes, `name in extras` for set-valued extras.  TLC evaluates every atom of the alphabet (330) on 1260 environments and 12 246 depth-2 trees on 315; every table is compared with packaging (disagreement = specification error, exit 2) and with dep_logic's parse_marker(text).evaluate(env) (disagreement = violation).  Parse events of recorded sessions carry packaging's table as well.",
+   note="Environment versions are final releases X.Y.Z.  Reference = installed packaging 26.3."),
+ "C07": dict(engine="marker", category="model_checking", design_ref="5/C07",
+   technique="TLC trace validation of recorded marker sessions (every produced register is rendered and re-parsed: clauses reparse_table, packaging_rejects_text, empty_token_inside, empty/any round trip, raises)",
+   text="recorded marker sessions (parse / & / | / reparse / only / exclude / without_extras / law scripts on earlier results) with truth tables from the real evaluate() over the session's region grid, validated event by event by TLC against MarkerSessionTrace (total trace specification, clause-level attribution).  For C07 every register produced by parse/&/|/only/exclude/without_extras is followed by a reparse event: str() must not raise, parse_marker and packaging.Marker must accept the text, the re-parsed marker must have the same truth table, `<empty>` may only be the whole text.",
+   note="Same grids and trusted base as C02."),
+ "C11": dict(engine="markersem", category="model_checking", design_ref="5/C11",
+   technique="TLC model checking of MarkerSemantics (ViewExact: transcribed _get_specifier view = Eval; FromSpecExact: transcribed from_specifier incl. zero padding) + replay of every atom / range into marker.specifier and MarkerExpression.from_specifier",
+   text="For every python_version / python_full_version atom (9 operators x 6 literals x both operand orders, in/not in lists) and every grid value, TLC checks that the specifier view admits exactly the values on which the atom evaluates true, and for every simple range over the literal pool that from_specifier yields None or an atom true exactly on the range; each vector is replayed on the real marker.specifier / from_specifier / evaluate.",
+   note="Known finding: in-list substring vs set-of-series (named deviation ListViewIsSetOfSeries in the specification)."),
+ "C12": dict(engine="marker", category="model_checking", design_ref="5/C12",
+   technique="TLC trace validation of recorded marker sessions (clauses only_leaks_variable, only_not_implied, only_changes_meaning, exclude_leaks_variable, exclude_changes_meaning)",
+   text="recorded marker sessions (parse / & / | / reparse / only / exclude / without_extras / law scripts on earlier results) with truth tables from the real evaluate() over the session's region grid, validated event by event by TLC against MarkerSessionTrace (total trace specification, clause-level attribution).  For C12 results are projected with only(names) for subsets of the session's variables, exclude(name) and without_extras(); the variables occurring anywhere in the real result tree and its truth table are logged and TLC checks: no leaked variable, implication m => only(m), identity when m mentions only the kept / not the removed names.",
+   note="Same grids and trusted base as C02."),
+ "C15": dict(engine="marker", category="model_checking", design_ref="5/C15",
+   technique="TLC trace validation of recorded marker sessions (clause normal_form: recursive NormalForm predicate on the logged shape tree; flags_vs_shape)",
+   text="recorded marker sessions (parse / & / | / reparse / only / exclude / without_extras / law scripts on earlier results) with truth tables from the real evaluate() over the session's region grid, validated event by event by TLC against MarkerSessionTrace (total trace specification, clause-level attribution).  For C15 the shape tree of every result (classes, atom groups with their value counts, children with their renderings) is logged and TLC evaluates the recursive NormalForm predicate (>= 2 pairwise distinct children, none empty/any/same kind, groups of >= 2 values) and is_empty()/is_any() against the shape.",
+   note="One recorded finding: one-child MultiMarker produced by union_simplify (repair breaks a pinned ordering test)."),
 }
 
 def cmd(pid, tier): return f"./check {pid} --tier {tier}"
@@ -74,6 +98,8 @@ engines = [
  {"name": "platform", "path": "harness/check_platform.py + specs/PlatformOps.tla, PlatformTags.tla", "serves_properties": ["C09"], "kind_free_text": "TLC model checking of the full grid + replay + packaging cross-check"},
  {"name": "wheel", "path": "harness/check_wheel.py + specs/WheelOps.tla, WheelCompat.tla, EnvCompare.tla, WheelName.tla", "serves_properties": ["C08", "C16", "C18"], "kind_free_text": "TLC model checking + exhaustive state replay"},
  {"name": "pep440", "path": "harness/check_pep440.py + specs/Pep440.tla (+ IntervalAlgebra, SpecSessionTrace)", "serves_properties": ["C04", "C06", "C17"], "kind_free_text": "TLC model checking + replay in many spellings + trace validation"},
+ {"name": "marker", "path": "harness/check_marker.py, drive_marker.py + specs/MarkerSessionTrace.tla", "serves_properties": ["C02", "C07", "C12", "C15", "C13", "C14"], "kind_free_text": "recorded sessions on the real library validated by TLC (trace validation)"},
+ {"name": "markersem", "path": "harness/check_markersem.py + specs/MarkerSemantics.tla, Pep440Ops.tla", "serves_properties": ["C03", "C11"], "kind_free_text": "TLC model checking + three-way replay against packaging"},
  {"name": "generic", "path": "harness/check_generic.py + specs/GenericSpec.tla", "serves_properties": ["C19"], "kind_free_text": "TLC model checking + exhaustive transition replay"},
 ]
 m = {"version": 1, "setup_cmd": "./setup.sh",
